@@ -169,23 +169,29 @@ def lean_obligations(prop, log):
     if hits:
         broken.append("forbidden tokens: " + ", ".join(hits[:10]))
     if prop == "C07":
-        # the checked copies of the stage functions (Lemmas/CheckedDefs.lean) may touch arrays only through the
-        # checked primitives: below the PRIMITIVES (END) marker no totalised access and no unchecked stage function
-        cd = os.path.join(LEAN, "UBidi", "Lemmas", "CheckedDefs.lean")
-        if os.path.exists(cd):
+        # the checked copies of the Model functions (Lemmas/CheckedDefs.lean: the per-paragraph pipeline;
+        # Lemmas/CheckedLinesDefs.lean: compute_initial_info and the line queries) may touch arrays only through the
+        # checked primitives: below the PRIMITIVES (END) marker no totalised access and no unchecked Model function
+        unchecked = {
+            "CheckedDefs.lean": "getD|cget|setRange|setAll|setWhileBN|setWhileNsmOrBN|slice|getLast\\??|head!|weakStep|w7Step|resolveWeak|bpStep|seqChars|identifyBracketPairs|scanEnclosed|n0Pair|n12Step|n12|resolveNeutral|resolveLevels|exStep|explicitCompute|seqBounds|seqOfRunFast|prepStep|isolatingRunSequences|fillRemovedLoop|assignLevelsToRemovedChars|resolveSequences|paraLevels|iterForwardsFrom|iterBackwardsFrom|bidiInfo|paragraphBidiInfo",
+            "CheckedLinesDefs.lean": "getD|cget|setRange|setAll|slice|getLast\\??|head!|iiStep|computeInitialInfo|l1Step|reorderLevels|reorderedLevels|reorderedLevelsPerChar|revGroups|l2RunsLoop|visualRunsForLine|skipBelow|skipAtLeast|nextRange|reverseRange|rvPass|rvLoop|reorderVisual|reorderLinePieces|reorderLine|paraDirection|levelAt|piecesUnits16|bidiInfo|paragraphBidiInfo",
+        }
+        for fname, words in unchecked.items():
+            cd = os.path.join(LEAN, "UBidi", "Lemmas", fname)
+            if not os.path.exists(cd):
+                broken.append("Lemmas/%s missing" % fname)
+                continue
             src = open(cd, encoding="utf-8").read()
             m = re.search(r"^.-! ## =+ PRIMITIVES \(END\).*$", src, re.M)
             if not m:
-                broken.append("CheckedDefs.lean: PRIMITIVES (END) marker not found")
-            else:
-                body = src[m.end():]
-                bad = re.findall(r"\b(getD|cget|setRange|setAll|setWhileBN|setWhileNsmOrBN|slice|getLast\??|head!|weakStep|w7Step|resolveWeak|bpStep|seqChars|identifyBracketPairs|scanEnclosed|n0Pair|n12Step|n12|resolveNeutral|resolveLevels|exStep|explicitCompute|seqBounds|seqOfRunFast|prepStep|isolatingRunSequences|fillRemovedLoop|assignLevelsToRemovedChars|resolveSequences|paraLevels|iterForwardsFrom|iterBackwardsFrom|bidiInfo|paragraphBidiInfo)\b|List\.set|\.set |get!|\]!|\]\?|List\.take|\.take |List\.drop|\.drop ", body)
-                if bad:
-                    broken.append("CheckedDefs.lean uses unchecked accesses below the primitives section: %s" % sorted(set(str(b) for b in bad))[:6])
-                if re.search(r"^\s*(theorem|lemma|example)\b", src, re.M):
-                    broken.append("CheckedDefs.lean must contain definitions only")
-        else:
-            broken.append("Lemmas/CheckedDefs.lean missing")
+                broken.append(fname + ": PRIMITIVES (END) marker not found")
+                continue
+            body = src[m.end():]
+            bad = re.findall(r"\b(?:" + words + r")\b|List\.set|\.set |get!|\]!|\]\?|List\.take|\.take |List\.drop|\.drop ", body)
+            if bad:
+                broken.append("%s uses unchecked accesses below the primitives section: %s" % (fname, sorted(set(bad))[:6]))
+            if re.search(r"^\s*(theorem|lemma|example)\b", src, re.M):
+                broken.append(fname + " must contain definitions only")
     # axioms of every property theorem
     axioms = {}
     if build_ok and names:
